@@ -455,6 +455,10 @@ func (g *Gen) reloadLine(w *World) string {
 	f := 0
 	if g.rng.Intn(100) < g.p.FaultPct {
 		f = 1 + g.rng.Intn(2)
+		// the store deletes of ConfigurePool come in list order: a fault on them is reproducible only if there is one
+		if w.storeObjectsOutside(next) == 1 && g.rng.Intn(2) == 0 {
+			f = 3
+		}
 	}
 	return "reload " + PoolsLine(next) + " " + strconv.Itoa(f)
 }
